@@ -357,26 +357,64 @@ def sorted_prefix(ctx, repo: Repo, pid: str):
                     witness=src(sl[0].slice))
     else:
         ctx.inconclusive("ORD", f"{pid}.prefix", "prefix selection in get_nodes not recognised", gn.where)
-    # cache keyed by node count
-    stores = [n for n in ast.walk(gs.node) if isinstance(n, ast.Assign) and _is_self_attr(n.targets[0], "current_nodes")]
-    tests = [n for n in ast.walk(gs.node) if isinstance(n, ast.Compare) and "self.current_nodes[1]" in src(n)]
-    okc = len(stores) == 1 and isinstance(stores[0].value, ast.Tuple) and len(stores[0].value.elts) == 2 and \
-        len(tests) == 1 and isinstance(tests[0].ops[0], ast.Eq)
-    if okc:
-        cnt = src(stores[0].value.elts[1])
-        defs = [a for a in ast.walk(gs.node) if isinstance(a, ast.Assign) and isinstance(a.targets[0], ast.Name) and a.targets[0].id == cnt]
-        okc = bool(defs) and "number_of_nodes" in src(defs[0].value) and cnt in src(tests[0])
+    # cache keyed by node count (the store may sit in a helper of _get_attributes_array_sorted_by_index: scope_fns)
+    stores = [(f_, n) for f_ in scope_fns for n in ast.walk(f_.node) if isinstance(n, ast.Assign) and _is_self_attr(n.targets[0], "current_nodes")]
+    tests = [(f_, n) for f_ in scope_fns for n in ast.walk(f_.node) if isinstance(n, ast.Compare) and "self.current_nodes[1]" in src(n)]
     ctx.instance("OWN")
-    if okc:
-        ctx.ok("OWN", f"{pid}.cache.key", "the sorted-node cache is stored together with, and validated against, the current node count",
-               gs.where, norm_stmt(stores[0]))
-    elif stores or tests:
-        ctx.violate("OWN", f"{pid}.cache.key", "the sorted-node cache is not validated against the node count it was computed for: a stale "
-                    "node order survives a subdivision", gs.where, norm_stmt(stores[0]) if stores else src(tests[0]),
-                    witness=f"{len(stores)} store(s), {len(tests)} validity test(s)")
-    else:
+    if not stores and not tests:
         ctx.ok("OWN", f"{pid}.cache.key", "no cache of sorted nodes (recomputed on every call)", gs.where)
-
+    else:
+        verdict, why_ = None, f"{len(stores)} store(s), {len(tests)} validity test(s)"
+        if len(stores) == 1 and len(tests) == 1 and isinstance(stores[0][1].value, ast.Tuple) and len(stores[0][1].value.elts) == 2 and \
+                len(tests[0][1].ops) == 1 and isinstance(tests[0][1].ops[0], (ast.Eq, ast.NotEq)):
+            f_s, st_ = stores[0]
+            f_t, t_ = tests[0]
+            cnt = src(st_.value.elts[1])
+            # the count that is stored and compared is the current number of nodes (a local or a parameter bound to it by the caller)
+            def is_count(fn_, name_):
+                defs_ = [a for a in ast.walk(fn_.node) if isinstance(a, ast.Assign) and isinstance(a.targets[0], ast.Name) and a.targets[0].id == name_]
+                if defs_:
+                    return "number_of_nodes" in src(defs_[0].value)
+                if name_ in fn_.params():
+                    k_ = fn_.params().index(name_) - (1 if fn_.params()[:1] == ["self"] else 0)
+                    for g_ in scope_fns:
+                        for c_ in ast.walk(g_.node):
+                            if isinstance(c_, ast.Call) and isinstance(c_.func, ast.Attribute) and c_.func.attr == fn_.name.split(".")[-1]:
+                                a_ = c_.args[k_] if k_ < len(c_.args) else next((kw.value for kw in c_.keywords if kw.arg == name_), None)
+                                if a_ is not None and (("number_of_nodes" in src(a_)) or (isinstance(a_, ast.Name) and is_count(g_, a_.id))):
+                                    return True
+                return "number_of_nodes" in name_
+            cnt_ok = is_count(f_s, cnt) and cnt in src(t_)
+            # the store must lie on the branch where the counts DIFFER
+            holder = getattr(t_, "_parent", None)
+            while holder is not None and not isinstance(holder, ast.If):
+                holder = getattr(holder, "_parent", None)
+            if holder is not None and cnt_ok and f_s is f_t:
+                in_body = any(st_ is x for b in holder.body for x in ast.walk(b))
+                in_else = any(st_ is x for b in holder.orelse for x in ast.walk(b))
+                # direct test or negated test
+                neg = isinstance(holder.test, ast.UnaryOp) and isinstance(holder.test.op, ast.Not)
+                differ_is_body = isinstance(t_.ops[0], ast.NotEq) != neg
+                if (differ_is_body and in_body) or (not differ_is_body and in_else):
+                    verdict = True
+                elif (differ_is_body and in_else) or (not differ_is_body and in_body):
+                    verdict, why_ = False, "the array is re-computed and stored when the counts are EQUAL and the old one re-used when they differ"
+                elif not in_body and not in_else:
+                    # early-return form:  if equal: return cached ... ; <store>
+                    ret_cached = any(isinstance(x, ast.Return) for b in (holder.orelse if differ_is_body else holder.body) for x in ast.walk(b))
+                    verdict = True if ret_cached and st_.lineno > holder.lineno else None
+            elif not cnt_ok:
+                verdict, why_ = False, f"the stored / compared count `{cnt}` is not the current number of nodes"
+        elif stores and not tests:
+            verdict, why_ = False, "the cached array is stored but never validated"
+        if verdict:
+            ctx.ok("OWN", f"{pid}.cache.key", "the sorted-node cache is stored together with, and validated against, the current node count",
+                   stores[0][0].where, norm_stmt(stores[0][1]))
+        elif verdict is False:
+            ctx.violate("OWN", f"{pid}.cache.key", "the sorted-node cache is not validated against the node count it was computed for: a stale "
+                        "node order survives a subdivision", gs.where, norm_stmt(stores[0][1]) if stores else src(tests[0][1]), witness=why_)
+        else:
+            ctx.inconclusive("OWN", f"{pid}.cache.key", "validation of the sorted-node cache not recognised", gs.where, witness=why_)
 
 def half_hypercube(ctx, repo: Repo, pid: str):
     ci = repo.cls(PO, "Cube4DPolytope")
